@@ -522,6 +522,9 @@ func (m *Machine) funcList() []string {
 		if fn.Pkg == nil && fn.Origin() == nil && fn.Parent() == nil {
 			continue
 		}
+		if isHarnessFile(m.prog.ssa.Fset.Position(fn.Pos()).Filename) {
+			continue // harness code, fakes and stubs are not "functions encoded"
+		}
 		out = append(out, fn.String())
 	}
 	sort.Strings(out)
